@@ -70,7 +70,7 @@ func CSVLog returns (err)
   props C08 C09 C10 C17
   requires @sink c.ReporterConfig.Output != nil && !typeis(c.ReporterConfig.Output, "*bufio.Writer") && !typeis(c.ReporterConfig.Output, "*encoding/csv.Writer") && TreeInv()
   modifies *
-  modifies ghost(cbLen, cbErr, cbNode, cbStop, cbRet, cbLineNo, cbLine, cbHeader, cbElems, cbNElems, scRd, scPos, privLo, evOf, accKey, accP, accN, accH, bufSink, bufSticky, sinkFailed, sinkPend, prLen, prSink, prArg, prArgs, tnodes, tdepth, tmax, tmapOf)
+  modifies ghost(cbLen, cbErr, cbNode, cbStop, cbRet, cbLineNo, cbLine, cbHeader, cbElems, cbNElems, scRd, scPos, privLo, evOf, accKey, accP, accN, accH, bufSink, bufSticky, sinkFailed, sinkPend, prLen, prSink, prArg, prArgs, tnodes, tdepth, tmax, tmapOf, jlen)
   let out := payload(c.ReporterConfig.Output)
   let lrd := payload(logStream)
   let cc := c.ParserConfig.CommentChar
@@ -84,7 +84,7 @@ func CSVDatabase returns (err)
   props C08 C09 C10 C17
   requires @sink cdc.ReporterConfig.Output != nil && !typeis(cdc.ReporterConfig.Output, "*bufio.Writer") && !typeis(cdc.ReporterConfig.Output, "*encoding/csv.Writer")
   calluse ParseStreamCallback#1 csvdb
-  modifies ghost(cbLen, cbErr, cbNode, cbStop, cbRet, cbLineNo, cbLine, cbHeader, cbElems, cbNElems, scRd, scPos, privLo, evOf, accKey, accP, accN, accH, bufSink, bufSticky, sinkFailed, sinkPend, prLen, prSink, prArg, prArgs, tnodes, tdepth, tmax, tmapOf)
+  modifies ghost(cbLen, cbErr, cbNode, cbStop, cbRet, cbLineNo, cbLine, cbHeader, cbElems, cbNElems, scRd, scPos, privLo, evOf, accKey, accP, accN, accH, bufSink, bufSticky, sinkFailed, sinkPend, prLen, prSink, prArg, prArgs, tnodes, tdepth, tmax, tmapOf, jlen)
   let out := payload(cdc.ReporterConfig.Output)
   let drd := payload(dbStream)
   let cc := cdc.ParserConfig.CommentChar
@@ -98,7 +98,7 @@ func CSVDatabaseResolved returns (err)
   requires @sink cdc.ReporterConfig.Output != nil && !typeis(cdc.ReporterConfig.Output, "*bufio.Writer") && !typeis(cdc.ReporterConfig.Output, "*encoding/csv.Writer")
   calluse Resolve#1 any
   modifies *
-  modifies ghost(cbLen, cbErr, cbNode, cbStop, cbRet, cbLineNo, cbLine, cbHeader, cbElems, cbNElems, scRd, scPos, privLo, evOf, accKey, accP, accN, accH, bufSink, bufSticky, sinkFailed, sinkPend, prLen, prSink, prArg, prArgs, tnodes, tdepth, tmax, tmapOf)
+  modifies ghost(cbLen, cbErr, cbNode, cbStop, cbRet, cbLineNo, cbLine, cbHeader, cbElems, cbNElems, scRd, scPos, privLo, evOf, accKey, accP, accN, accH, bufSink, bufSticky, sinkFailed, sinkPend, prLen, prSink, prArg, prArgs, tnodes, tdepth, tmax, tmapOf, jlen)
   let out := payload(cdc.ReporterConfig.Output)
   let drd := payload(dbStream)
   let cc := cdc.ParserConfig.CommentChar
